@@ -576,44 +576,8 @@ func checkTimeComparators(r *Reporter, p *Prog) {
 			r.Unresolved("cmp/direction", key, "method not found")
 			continue
 		}
-		// whatever the dispatch form: the return reachable only on the Before(t, other) edge and
-		// the one reachable only on the After(t, other) edge (operands resolved, conversions dropped)
-		got := map[string]string{}
-		{
-			f := newFuncCFG(p, p.Pkg(pkg).TypesInfo, fd.Body, key)
-			strip := func(k string) string {
-				for strings.HasPrefix(k, "time.Time(") && strings.HasSuffix(k, ")") {
-					k = strings.TrimSuffix(strings.TrimPrefix(k, "time.Time("), ")")
-				}
-				return k
-			}
-			edgesOf := map[string][]Edge{}
-			f.forEachEdgeFact(func(e Edge, b *cfg.Block, ft fact) {
-				cl, ok := ast.Unparen(ft.Atom).(*ast.CallExpr)
-				if !ok || !ft.Pol || len(cl.Args) != 1 {
-					return
-				}
-				se, ok := ast.Unparen(cl.Fun).(*ast.SelectorExpr)
-				if !ok || (se.Sel.Name != "Before" && se.Sel.Name != "After") {
-					return
-				}
-				pt := Point{b, len(b.Nodes) - 1}
-				k := se.Sel.Name + "(" + strip(f.KeyAt(se.X, pt)) + "," + strip(f.KeyAt(cl.Args[0], pt)) + ")"
-				edgesOf[k] = append(edgesOf[k], e)
-			})
-			for _, pt := range f.Find(func(n ast.Node) bool { _, ok := n.(*ast.ReturnStmt); return ok }) {
-				rs := f.nodeAt(pt).(*ast.ReturnStmt)
-				if len(rs.Results) != 1 {
-					continue
-				}
-				for k, edges := range edgesOf {
-					if _, only := f.OnlyThroughEdges(pt, edges); only {
-						got[k] = exprKey(rs.Results[0])
-					}
-				}
-			}
-		}
-		if got["Before(t,other)"] == row.before && got["After(t,other)"] == row.after {
+		got := timeCompareDirection(p, pkg, fd, key)
+		if got["Before(recv,arg)"] == row.before && got["After(recv,arg)"] == row.after {
 			r.Pass("cmp/direction", key, p.posStr(fd.Pos()), fmt.Sprintf("earlier -> %s, later -> %s", row.before, row.after))
 		} else {
 			r.Fail("cmp/direction", key, p.posStr(fd.Pos()), fmt.Sprintf("expected earlier -> %s and later -> %s, found %v", row.before, row.after, got))
@@ -901,4 +865,58 @@ func mapOp2(f *FuncCFG, pt Point, classify func(ast.Node) (string, string)) (kin
 		return true
 	})
 	return
+}
+
+// timeCompareDirection maps, for a CompareTo(other) method over time values, the facts
+// "Before(recv,arg)" / "After(recv,arg)" (operands resolved, time.Time conversions dropped, the
+// receiver and the parameter renamed to recv/arg) to the value returned on the paths that can only
+// be reached through the TRUE edge of that test - whatever the dispatch form (ifs, switch, helper).
+func timeCompareDirection(p *Prog, pkg string, fd *ast.FuncDecl, key string) map[string]string {
+	got := map[string]string{}
+	f := newFuncCFG(p, p.Pkg(pkg).TypesInfo, fd.Body, key)
+	recvName, argName := "", ""
+	if fd.Recv != nil && len(fd.Recv.List) == 1 && len(fd.Recv.List[0].Names) == 1 {
+		recvName = fd.Recv.List[0].Names[0].Name
+	}
+	if len(fd.Type.Params.List) == 1 && len(fd.Type.Params.List[0].Names) == 1 {
+		argName = fd.Type.Params.List[0].Names[0].Name
+	}
+	strip := func(k string) string {
+		for strings.HasPrefix(k, "time.Time(") && strings.HasSuffix(k, ")") {
+			k = strings.TrimSuffix(strings.TrimPrefix(k, "time.Time("), ")")
+		}
+		switch k {
+		case recvName:
+			return "recv"
+		case argName:
+			return "arg"
+		}
+		return k
+	}
+	edgesOf := map[string][]Edge{}
+	f.forEachEdgeFact(func(e Edge, b *cfg.Block, ft fact) {
+		cl, ok := ast.Unparen(ft.Atom).(*ast.CallExpr)
+		if !ok || !ft.Pol || len(cl.Args) != 1 {
+			return
+		}
+		se, ok := ast.Unparen(cl.Fun).(*ast.SelectorExpr)
+		if !ok || (se.Sel.Name != "Before" && se.Sel.Name != "After") {
+			return
+		}
+		pt := Point{b, len(b.Nodes) - 1}
+		k := se.Sel.Name + "(" + strip(f.KeyAt(se.X, pt)) + "," + strip(f.KeyAt(cl.Args[0], pt)) + ")"
+		edgesOf[k] = append(edgesOf[k], e)
+	})
+	for _, pt := range f.Find(func(n ast.Node) bool { _, ok := n.(*ast.ReturnStmt); return ok }) {
+		rs := f.nodeAt(pt).(*ast.ReturnStmt)
+		if len(rs.Results) != 1 {
+			continue
+		}
+		for k, edges := range edgesOf {
+			if _, only := f.OnlyThroughEdges(pt, edges); only {
+				got[k] = exprKey(rs.Results[0])
+			}
+		}
+	}
+	return got
 }
